@@ -283,3 +283,41 @@ Theorem dur_frac_1digit_bounds_sharp :
    py_dur (one_digit_text true [52; 50; 57; 52; 57; 54; 55; 50; 57; 55] c_dot 53 c_S) = Ok (0, 0, 49710, 23297, 500000)).
 Proof. exact (conj one_digit_range_sharp one_digit_u32_sharp). Qed.
 Print Assumptions dur_frac_1digit_bounds_sharp.
+
+(* ------------------------------------------------------------ THE MODEL IS THE CODE (pure-Python duration parser)
+   Gen/DurParsePy.v is translated from /repo's src/pendulum/parsing/iso8601.py on every run (tools/vlib/pyfloat2gallina.py +
+   gens/g53_dur_parse_py.py): everything _parse_iso8601_duration does after `m = ISO8601_DURATION.match(text)` succeeded — the branches per
+   designator, the order checks, the `fractional` flag, int(portion) / 10 * HOURS_PER_DAY etc. with CPython's int/float typing, the int-or-float
+   accumulators (`num`), the microsecond padding, the final Duration(...) call — on the match record `dmatch` (what Model/DurRegexMatch.v builds
+   from the executed regular expression, proved equal to the hand matcher above).  The hand model `py_args` + `duration_native`
+   (= py_native after the match), about which the theorems above speak, EQUALS that translation for every match record whose weeks group
+   carries no fraction.  For a fractional week the translation keeps CPython's float `// 1`, `% 1` and int() (Spec/TdFloat) where the hand
+   model writes trunc and x - trunc x; that equality needs a rounding argument: NOT proved, hence the hypothesis (the branch is the known
+   finding py-week-frac; checked on instances by kernel computation below and tied by the correspondence run). *)
+From PV Require Import Model.DurParsePrims Gen.DurParsePy Proofs.DurParsePyFacts.
+
+Theorem model_is_code_parse_iso8601_duration_partial : forall m, week_frac_free m ->
+  gen_parse_iso8601_duration m =
+  bind (py_args m) (fun a => duration_native (a_years a) (a_months a) (a_weeks a) (a_days a) (a_hours a) (a_minutes a) (a_seconds a) (a_us a)).
+Proof. exact gen_parse_eq. Qed.
+Print Assumptions model_is_code_parse_iso8601_duration_partial.
+
+(* the whole pipeline inside the try block: regex match (hand matcher = executed regex), then the translated code *)
+Theorem model_is_code_py_native_partial : forall s m, match_duration s = Some m -> week_frac_free m ->
+  py_native s = gen_parse_iso8601_duration m.
+Proof. exact py_native_is_code. Qed.
+Print Assumptions model_is_code_py_native_partial.
+
+(* fractional weeks: model = code on "P1.1W", "P0.5W", "P12,3W", "P1.25W", "P007.9W" (kernel computation) *)
+Theorem model_is_code_week_fraction_instances :
+  Forall (fun s => match_duration s <> None /\ ~ week_frac_free (the_match s)
+                   /\ gen_parse_iso8601_duration (the_match s) = py_native_of_match (the_match s) /\ py_native s = py_native_of_match (the_match s))
+         [[80; 49; 46; 49; 87]; [80; 48; 46; 53; 87]; [80; 49; 50; 44; 51; 87]; [80; 49; 46; 50; 53; 87]; [80; 48; 48; 55; 46; 57; 87]].
+Proof. exact week_fraction_instances. Qed.
+Print Assumptions model_is_code_week_fraction_instances.
+
+(* the hypothesis is satisfiable: "P1Y2M3DT4H5M6.5S", "P1.5D", "PT0,25H", "P3W" match and carry no week fraction *)
+Example model_is_code_parse_hyps :
+  Forall (fun s => match_duration s <> None /\ week_frac_free (the_match s))
+         [[80; 49; 89; 50; 77; 51; 68; 84; 52; 72; 53; 77; 54; 46; 53; 83]; [80; 49; 46; 53; 68]; [80; 84; 48; 44; 50; 53; 72]; [80; 51; 87]].
+Proof. exact week_frac_free_instances. Qed.
